@@ -1,1 +1,88 @@
-From Coq Require Import ZArith.
+(* C03 — The decoder implements exactly the FFV0 instruction grammar.
+   Statements only; proofs in proofs/Grammar.v.  The grammar is spec/FFV0.v: inductive relations written from
+   spec/iconvg-spec-v0.md (magic, metadata chunks with their lengths and MID order, number and colour forms,
+   styling and drawing opcodes with ADJ / increment variants, repeat counts, arc flags, mode switches; every
+   opcode not listed has no derivation = reserved) that never mention the decoder.
+
+   decoder_is_grammar: for EVERY byte string (bytes 0..255), the model of decode.Decode — compared with the Go
+   code on ~38k streams per run, including non-canonical forms no encoder emits — succeeds with calls cs if and
+   only if the grammar derives (b, cs).  Acceptance and the delivered operations are therefore both exactly
+   the specification's.  The component equivalences are restated below.  Modelling notes: float values of the
+   1/2-byte number forms are written with the float32 operation computing them (C08 proves them exact);
+   a suggested-palette entry that is not a valid premultiplied colour is replaced by opaque black, where the
+   specification only says the rendering is undefined. *)
+From Coq Require Import ZArith Bool List.
+From IVG Require Import SF NumCodec Color Calls Decoder NumBase DecProofs RoundTrip FFV0 Grammar.
+Import ListNotations.
+Local Open Scope Z_scope.
+
+Theorem decoder_is_grammar : forall b cs, wf_bytes b -> (decode_calls [] b = (cs, Done) <-> ffv0 b cs).
+Proof. exact Grammar.decoder_is_grammar. Qed.
+Print Assumptions decoder_is_grammar.
+
+(* numbers: the decoder reads exactly the bytes of one encoding and yields its value; nothing else is a number *)
+Theorem natural_numbers : forall b u n,
+  (dec_natural b = Some (u, n) -> nat_enc (firstn n b) u /\ length (firstn n b) = n) /\
+  (forall bs rest, nat_enc bs u -> dec_natural (bs ++ rest) = Some (u, length bs)).
+Proof. intros b u n. split; [apply Grammar.nat_sound|intros bs rest; apply Grammar.nat_complete]. Qed.
+Print Assumptions natural_numbers.
+
+Theorem coordinate_numbers : forall b f n,
+  (dec_coordinate b = Some (f, n) -> coord_enc (firstn n b) f /\ length (firstn n b) = n) /\
+  (forall bs rest, coord_enc bs f -> dec_coordinate (bs ++ rest) = Some (f, length bs)).
+Proof. intros b f n. split; [apply Grammar.coord_sound|intros bs rest; apply Grammar.coord_complete]. Qed.
+Print Assumptions coordinate_numbers.
+
+Theorem real_numbers : forall b f n,
+  (dec_real b = Some (f, n) -> real_enc (firstn n b) f /\ length (firstn n b) = n) /\
+  (forall bs rest, real_enc bs f -> dec_real (bs ++ rest) = Some (f, length bs)).
+Proof. intros b f n. split; [apply Grammar.real_sound|intros bs rest; apply Grammar.real_complete]. Qed.
+Print Assumptions real_numbers.
+
+Theorem zero_to_one_numbers : forall b f n,
+  (dec_zero_to_one b = Some (f, n) -> zto_enc (firstn n b) f /\ length (firstn n b) = n) /\
+  (forall bs rest, zto_enc bs f -> dec_zero_to_one (bs ++ rest) = Some (f, length bs)).
+Proof. intros b f n. split; [apply Grammar.zto_sound|intros bs rest; apply Grammar.zto_complete]. Qed.
+Print Assumptions zero_to_one_numbers.
+
+Theorem colors : forall k b c n, 0 <= k <= 4 -> wf_bytes b ->
+  (dec_color_form k b = Some (c, n) -> color_enc k (firstn n b) c /\ length (firstn n b) = n) /\
+  (forall bs rest, wf_bytes bs -> color_enc k bs c -> dec_color_form k (bs ++ rest) = Some (c, length bs)).
+Proof. intros k b c n Hk W. split; [apply Grammar.color_sound; assumption|intros bs rest Wb; apply Grammar.color_complete, Wb]. Qed.
+Print Assumptions colors.
+
+(* one styling instruction *)
+Theorem styling_instructions : forall opcode b its d' b', 0 <= opcode < 256 -> wf_bytes b ->
+  styling_step opcode b = (its, StepOk d' b') ->
+  exists bs c, opcode :: b = bs ++ b' /\ calls_of its = [c] /\ styling bs c d'.
+Proof. exact Grammar.styling_sound. Qed.
+Print Assumptions styling_instructions.
+
+Theorem styling_instructions_complete : forall bs c d', styling bs c d' -> wf_bytes bs -> forall rest,
+  exists opcode tl its, bs = opcode :: tl /\ styling_step opcode (tl ++ rest) = (its, StepOk d' rest) /\ calls_of its = [c].
+Proof. exact Grammar.styling_complete. Qed.
+Print Assumptions styling_instructions_complete.
+
+(* one drawing instruction (a whole run of repetitions) *)
+Theorem drawing_instructions : forall opcode b its d' b', 0 <= opcode < 256 ->
+  drawing_step opcode b = (its, StepOk d' b') ->
+  exists bs, opcode :: b = bs ++ b' /\ drawing bs (calls_of its) d'.
+Proof. exact Grammar.drawing_sound. Qed.
+Print Assumptions drawing_instructions.
+
+Theorem drawing_instructions_complete : forall bs cs d', drawing bs cs d' -> forall rest,
+  exists opcode tl its, bs = opcode :: tl /\ drawing_step opcode (tl ++ rest) = (its, StepOk d' rest) /\ calls_of its = cs.
+Proof. exact Grammar.drawing_complete. Qed.
+Print Assumptions drawing_instructions_complete.
+
+(* non-vacuity: a stream with a viewBox chunk, a 4-byte natural as arc flags (a form no encoder emits) and a
+   repeat count is derivable — obtained through the theorem from the decoder's run *)
+Definition ex_stream : list byte :=
+  [137; 73; 86; 71; 2; 10; 0; 64; 64; 192; 192;  193; 128; 128;  1; 130; 130; 132; 132;  192; 138; 138; 10; 7; 0; 0; 0; 140; 140;  225].
+Example ex_derivable : exists cs, ffv0 ex_stream cs /\ length cs = 6%nat.
+Proof.
+  eexists. split.
+  - apply Grammar.decoder_sound; [unfold wf_bytes, wf_byte; repeat constructor; vm_compute; intuition congruence|].
+    vm_compute. reflexivity.
+  - reflexivity.
+Qed.
